@@ -861,3 +861,33 @@ package hermes
 //@   requires density: 1 <= g.LD[horizon-1] && g.LD[horizon-1] <= 5
 //@   ensures table: isnil(err) ==> g.PRGES[horizon-1] == tabpor + KRG/100 && g.NORMFK[horizon-1] == tabfk && g.FELDW[horizon-1] == tabfk + KRR/100 && g.LIM[horizon-1] == tablim
 //@   ensures bonus: 0 <= KRG && KRG <= 14 && 0-2 <= KRR && KRR <= 13.5
+
+// ---------------------------------------------------------------------------
+// C10  schedules: after reading, events sharing a day are moved to the first free day at or after their date, which makes
+// the schedule strictly ascending (the cursor of the day loop relies on that: an event that is not later than its
+// predecessor would block every later event).
+//@ region Input#fertshift from "for i := 1; i < NDu; i++ { index := i - 1 if g.ZTDG[index+1] <= g.ZTDG[index] {" to "for i := 1; i < NDu; i++ { index := i - 1 if g.ZTDG[index+1] <= g.ZTDG[index] {"
+//@   serves C10
+//@   requires count: 1 <= NDu && NDu <= 299
+//@   requires ascending: forall(k, 0, NDu-1, g.ZTDG[k] <= g.ZTDG[k+1])
+//@   ensures strict: forall(k, 0, NDu-1, g.ZTDG[k] < g.ZTDG[k+1])
+//@   ensures firstfree: forall(k, 1, NDu, g.ZTDG[k] == max(old(g.ZTDG[k]), g.ZTDG[k-1]+1))
+//@   ensures frame: g.ZTDG[0] == old(g.ZTDG[0]) && forall(k, NDu, 300, g.ZTDG[k] == old(g.ZTDG[k]))
+//@ loop Input@"for i := 1; i < NDu; i++ { index := i - 1 if g.ZTDG[index+1] <= g.ZTDG[index] {"
+//@   invariant range: 1 <= \i && \i <= NDu
+//@   invariant strict: forall(k, 0, \i-1, g.ZTDG[k] < g.ZTDG[k+1])
+//@   invariant firstfree: forall(k, 1, \i, g.ZTDG[k] == max(old(g.ZTDG[k]), g.ZTDG[k-1]+1))
+//@   invariant rest: g.ZTDG[0] == old(g.ZTDG[0]) && forall(k, \i, 300, g.ZTDG[k] == old(g.ZTDG[k]))
+
+//@ region Input#tillshift from "for i := 1; i < NRTIL; i++ { if g.EINTE[i+1] <= g.EINTE[i] {" to "for i := 1; i < NRTIL; i++ { if g.EINTE[i+1] <= g.EINTE[i] {"
+//@   serves C10
+//@   requires count: 0 <= NRTIL && NRTIL <= 199
+//@   requires ascending: forall(k, 1, NRTIL, g.EINTE[k] <= g.EINTE[k+1])
+//@   ensures strict: forall(k, 1, NRTIL, g.EINTE[k] < g.EINTE[k+1])
+//@   ensures firstfree: forall(k, 2, NRTIL+1, g.EINTE[k] == max(old(g.EINTE[k]), g.EINTE[k-1]+1))
+//@   ensures frame: g.EINTE[0] == old(g.EINTE[0]) && g.EINTE[1] == old(g.EINTE[1]) && forall(k, NRTIL+1, 201, g.EINTE[k] == old(g.EINTE[k]))
+//@ loop Input@"for i := 1; i < NRTIL; i++ { if g.EINTE[i+1] <= g.EINTE[i] {"
+//@   invariant range: 1 <= \i && \i <= max(NRTIL, 1)
+//@   invariant strict: forall(k, 1, \i, g.EINTE[k] < g.EINTE[k+1])
+//@   invariant firstfree: forall(k, 2, \i+1, g.EINTE[k] == max(old(g.EINTE[k]), g.EINTE[k-1]+1))
+//@   invariant rest: g.EINTE[0] == old(g.EINTE[0]) && g.EINTE[1] == old(g.EINTE[1]) && forall(k, \i+1, 201, g.EINTE[k] == old(g.EINTE[k]))
